@@ -55,6 +55,18 @@ pub struct ReplayFile {
     pub original_size: usize,
     pub minimised_size: usize,
     pub minimiser_tests: u64,
+    /// the violation as first observed (before minimisation), in the worker that served the
+    /// chunk starting at `chunk_first`
+    #[serde(default)]
+    pub original_violation: Option<Violation>,
+    #[serde(default)]
+    pub chunk_first: u64,
+    /// Some(f): the violation needs the runs f..run_index before it in the same process (state that
+    /// outlives a run and that start_query() does not reset). Replay = generate and execute the runs
+    /// f..=run_index from the seed, in order, in one fresh process; the last one must show a
+    /// violation of the same class at the same kind of operation.
+    #[serde(default)]
+    pub chain_first: Option<u64>,
 }
 
 #[derive(Serialize, Deserialize, Clone, Debug, Default)]
@@ -152,6 +164,9 @@ fn make_replay(property: &str, seed: u64, index: u64, original: &Scenario, f: &F
         minimised_size: f.scenario.size(),
         minimiser_tests: tests,
         scenario: f.scenario.clone(),
+        original_violation: None,
+        chunk_first: 0,
+        chain_first: None,
     }
 }
 
@@ -191,6 +206,10 @@ fn worker(args: &[String]) -> i32 {
             }
         });
     }
+    // Violations are minimised after the last run of the chunk, not in between: the runs of a chunk
+    // then form one reproducible history of the process (needed when a change under test keeps
+    // state across runs that start_query() does not reset — see ReplayFile::chain_first).
+    let mut pending: Vec<(u64, Scenario, Failing)> = vec![];
     let mut k = 0u64;
     loop {
         let index = first + offset + k * stride;
@@ -201,14 +220,14 @@ fn worker(args: &[String]) -> i32 {
         if max_seconds > 0 && started.elapsed().as_secs() >= max_seconds {
             break;
         }
-        // memory guard: the engine leaks its proof trees; a chunk that has grown past 6 GiB ends
+        // memory guard: the engine leaks its proof trees; a chunk that has grown past 3 GiB ends
         // here (its remaining indices are reported as not run)
-        if k % 16 == 0 && resident_kib() > 6_000_000 {
-            rep.harness_errors.push(format!("chunk starting at {} stopped at index {}: resident set above 6 GiB", first, index));
+        if k % 16 == 0 && resident_kib() > 3_000_000 {
+            rep.harness_errors.push(format!("chunk starting at {} stopped at index {}: resident set above 3 GiB", first, index));
             break;
         }
         // enough violations to report: the verdict is known, stop spending time on this chunk
-        if max_violations > 0 && rep.violations.len() as u64 >= max_violations {
+        if max_violations > 0 && pending.len() as u64 >= max_violations {
             break;
         }
         beat.store(index, std::sync::atomic::Ordering::SeqCst);
@@ -280,16 +299,22 @@ fn worker(args: &[String]) -> i32 {
                 }
                 if let Some(v) = j.violations.first() {
                     rep.violations_total += 1;
-                    if (rep.violations.len() as u64) < max_violations {
-                        let failing = Failing { scenario: scn.clone(), violation: v.clone(), record: rec.clone() };
-                        let t1 = Instant::now();
-                        let (min, tests) = minimise(&property, failing);
-                        rep.minimise_ms += t1.elapsed().as_millis() as u64;
-                        rep.violations.push(make_replay(&property, seed, index, &scn, &min, tests));
+                    if (pending.len() as u64) < max_violations {
+                        pending.push((index, scn.clone(), Failing { scenario: scn.clone(), violation: v.clone(), record: rec.clone() }));
                     }
                 }
             }
         }
+    }
+    for (index, scn, failing) in pending {
+        let original = failing.violation.clone();
+        let t1 = Instant::now();
+        let (min, tests) = minimise(&property, failing);
+        rep.minimise_ms += t1.elapsed().as_millis() as u64;
+        let mut rf = make_replay(&property, seed, index, &scn, &min, tests);
+        rf.original_violation = Some(original);
+        rf.chunk_first = first;
+        rep.violations.push(rf);
     }
     rep.wall_s = started.elapsed().as_secs_f64();
     std::fs::write(&out, serde_json::to_string(&rep).unwrap()).expect("write worker report");
@@ -313,6 +338,37 @@ fn replay(path: &str, quiet: bool) -> i32 {
         }
     };
     quiet_panics();
+    if let Some(chain_first) = rf.chain_first {
+        // a history of several generated runs in one process
+        let want = rf.original_violation.as_ref().map(|v| v.signature()).unwrap_or_default();
+        let mut last: Vec<Violation> = vec![];
+        for index in chain_first..=rf.run_index {
+            let mut rng = Rng::split(rf.seed, &rf.property, index);
+            let scn = gen_scenario(&rf.property, &mut rng);
+            match run_and_judge_full(&rf.property, &scn) {
+                Err(e) => {
+                    eprintln!("harness error during chain replay at run {}: {}", index, e);
+                    return 2;
+                }
+                Ok(v) => last = v,
+            }
+        }
+        return match last.iter().find(|v| v.signature() == want) {
+            Some(v) => {
+                if !quiet {
+                    eprintln!("replayed (runs {}..={} in one process): {} {} at operation {} ({})", chain_first, rf.run_index, v.property, v.class, v.op_index, v.op);
+                    eprintln!("  expected: {}", v.expected);
+                    eprintln!("  observed: {}", v.observed);
+                }
+                capture::write_real_stdout(&format!("VIOLATION property={} replay={}\n", rf.property, path));
+                1
+            }
+            None => {
+                eprintln!("NOT REPRODUCED: {} (chain {}..={} gives: {:?})", path, chain_first, rf.run_index, last.first());
+                0
+            }
+        };
+    }
     match run_and_judge(&rf.property, &rf.scenario, true) {
         Err(e) => {
             eprintln!("harness error during replay: {}", e);
@@ -342,6 +398,19 @@ fn replay(path: &str, quiet: bool) -> i32 {
                     0
                 }
             }
+        }
+    }
+}
+
+/// One generated run exactly as a worker executes it (default budgets), judged.
+fn run_and_judge_full(property: &str, scn: &Scenario) -> Result<Vec<Violation>, String> {
+    match execute(scn, ExecOpts::default()) {
+        RunOutcome::HarnessError(e) => Err(e),
+        RunOutcome::Done(rec) => {
+            if rec.discard.is_some() {
+                return Ok(vec![]);
+            }
+            Ok(judge(property, scn, &rec).violations)
         }
     }
 }
